@@ -304,6 +304,23 @@ def gen(rng, tier, index):
                 used.append(hi)
             op["u"] = [rng.choice([0, 0, 0, 1, 1, 2, 3]), hi, rng.choice(RESP_PATHS)]
             op["c"] = [_gen_cookie(rng, hi, names, t, counter, extras) for _ in range(rng.choice([1, 1, 1, 2, 3]))]
+            prior = [o for o in ops if o["k"] == "set"]
+            if prior and rng.random() < 0.15:
+                # the same cookie issued again - same URL, name, value, Domain and Path - with other attributes
+                # (a Secure upgrade or downgrade, another lifetime): it replaces the stored one (5.3 step 11).
+                # "t" is its own tag for the oracle's book-keeping; the value on the wire is the old one.
+                o = rng.choice(prior)
+                spec = rng.choice(o["c"])
+                keep = [list(a_) for a_ in spec["a"] if a_[0].lower() in ("domain", "path")]
+                had_secure = any(a_[0].lower() == "secure" for a_ in spec["a"])
+                more = [] if had_secure and rng.random() < 0.7 else [["Secure", None]] if rng.random() < 0.7 else []
+                if rng.random() < 0.3:
+                    more.append(["Max-Age", rng.choice(["5", "60", "3600"])])
+                if rng.random() < 0.2:
+                    more.append(["HttpOnly", None])
+                counter[0] += 1
+                op["u"] = list(o["u"])
+                op["c"] = [{"n": spec["n"], "v": spec["v"], "a": keep + more, "t": f"{spec['v']}#r{counter[0]}"}]
         elif k == "api":
             form = rng.choice(["shared", "shared", "pairs", "simple", "simple_nourl"])
             op["form"] = form
@@ -580,6 +597,8 @@ def run(scn, ch, log=False):
         family = {}  # (domain, name) -> [tags of accepted set operations]
         removed_op = {}  # tag -> op index at which it left the reference store
         family_syntax = {}  # (domain, name) -> off-lattice spelling used by a Set-Cookie of that family
+        val_tags = {}  # value -> tags carrying it, in order of issue
+        val_keys = {}  # value -> (domain, path, name) keys it was accepted under
         pred = {}  # tag -> tag of the cookie it replaced (same name, domain, path)
         ops = scn["ops"]
 
@@ -731,8 +750,9 @@ def run(scn, ch, log=False):
                     if cands is not None and any(c.value == val for c in cands):
                         continue
                     # over-send
-                    fate = ref.fate.get(val)
-                    c = cookie_of(val)
+                    vt = val_tags.get(val, [val])[-1]  # the latest issue of that value
+                    fate = ref.fate.get(vt)
+                    c = cookie_of(vt)
                     why = None
                     if fate == "live" and c is not None:
                         why = ref.why_not(c, host, path, ref.is_secure_channel(SCHEMES[s], host, None))
@@ -741,7 +761,7 @@ def run(scn, ch, log=False):
                     violate("no_oversend", "oversend:" + key,
                             f"filter_cookies({url}) returned {name}={val} but the RFC 6265 reference forbids it "
                             f"({key}); reference cookie: {c!r} fate={fate}; set by: "
-                            f"{info.get(val, {}).get('hdr')!r} from host {info.get(val, {}).get('host')!r}; "
+                            f"{info.get(vt, {}).get('hdr')!r} from host {info.get(vt, {}).get('host')!r}; "
                             f"reference would send {[(x.name, x.value) for x in exp]}", fam)
                 for name, cands in by_name.items():
                     if name in got:
@@ -810,9 +830,17 @@ def run(scn, ch, log=False):
             hdrs = [render(c) for c in op["c"]]
             cls = []
             for spec, hdr in zip(op["c"], hdrs):
-                tag = spec["v"]
+                tag = spec.get("t", spec["v"])
                 info[tag] = {"op": opi, "hdr": hdr, "host": host}
                 c = ref.set_from_header(hdr, host, rpath, t_now, tag)
+                if c is not None:
+                    # a value is carried by several tags only when a cookie is issued again (gen), i.e. under one
+                    # (domain, path, name); a history where they differ (the shrinker can make one) is ambiguous
+                    ks = val_keys.setdefault(spec["v"], set())
+                    ks.add(c.key())
+                    if len(ks) > 1:
+                        state["ambiguous"] = True
+                val_tags.setdefault(spec["v"], []).append(tag)
                 if c is None:
                     cls.append("rej")
                 else:
@@ -948,6 +976,13 @@ def run(scn, ch, log=False):
             violate("loop_exception", f"{c['exc_type']}@{c.get('frame')}", f"exception reached the loop: {c}")
         st = w.stats()
         nontrivial = bool(state["attached"] and state["withheld"])
+        if state.get("ambiguous"):
+            # not a history gen() produces: values are no longer attributable to one cookie
+            del viols[:]
+            nontrivial = False
+            probe("ambiguous_history_not_judged")
+        if len(val_tags) < sum(len(v_) for v_ in val_tags.values()):
+            probe("reissued_same_value")
         if nontrivial:
             probe("nontrivial")
         res = {
